@@ -797,4 +797,85 @@ Proof.
     unfold Wal.read_segments. rewrite Hs, HGc, HG. eapply read_ok; eauto.
 Qed.
 
+(* layout: finished segments are whole pages, and everything logged is on disk when Log returns *)
+Theorem wal_layout c pps bs st :
+  In c [0%N; 1%N; 2%N] ->
+  log_batches c pps bs w_init = WOk st ->
+  Forall (fun s => exists q, 0 <= q /\ zlen s = page_size * q) (w_closed st) /\
+  w_flushed st = alloc st /\ alloc st + 7 <= page_size /\
+  exists q, 0 <= q /\ zlen (active_file st) = page_size * q + alloc st.
+Proof.
+  intros Hc HL. destruct Inv_init as [HI0 Hf0].
+  destruct (log_batches_ok c pps Hc bs w_init HI0 Hf0) as [st' [D [HL' [HI [Hfl _]]]]].
+  rewrite HL in HL'. inversion HL'; subst st'.
+  destruct HI as [Hcl [[q [Hq Hw]] [Hf Ha]]].
+  split; [exact Hcl|]. split; [exact Hfl|]. split; [exact Ha|].
+  exists q. split; [exact Hq|]. unfold active_file. rewrite Hw, Hfl. reflexivity.
+Qed.
+
 End Proofs.
+
+(* ------------------------------------------------------------------ live reader: bounded check *)
+(* Executable check used by C13_live_partial: write a log with small pages, then tail every
+   segment with a LiveReader under every single-cut release of its bytes and under byte-by-byte
+   release, and compare with the records of that segment. *)
+Fixpoint beqN (a b : list N) : bool :=
+  match a, b with
+  | [], [] => true
+  | x :: a', y :: b' => if N.eqb x y then beqN a' b' else false
+  | _, _ => false
+  end.
+Fixpoint lbeqN (a b : list (list N)) : bool :=
+  match a, b with
+  | [], [] => true
+  | x :: a', y :: b' => if beqN x y then lbeqN a' b' else false
+  | _, _ => false
+  end.
+
+Definition t_crc (l : list N) : N :=
+  ((N.of_nat (length l) * 2654435761 + fold_left N.add l 0) mod 4294967296)%N.
+Definition t_enc (_ : N) (r : list N) : list N := r.
+Definition t_dec (_ : N) (s : list N) : option (list N) := Some s.
+
+Definition live_ok (ps : Z) (want : list (list N)) (chunks : list (list N)) : bool :=
+  let '(outs, e) := live_run ps t_crc t_dec chunks l_init in
+  lbeqN (concat outs) want && match e with NEof => true | _ => false end.
+
+Fixpoint natseq (n : nat) : list nat := match n with O => [O] | S m => natseq m ++ [n] end.
+
+Definition check_log (ps pps : Z) (bs : list (list (list N))) : bool :=
+  match log_batches ps t_crc t_enc 0 pps bs w_init with
+  | WOk st =>
+    let segs := segments st in
+    let per_seg := map (fun s => fst (read_stream ps t_crc t_dec (pad_page ps s))) segs in
+    lbeqN (concat per_seg) (concat bs) &&
+    forallb (fun '(s, want) =>
+               forallb (fun cut => live_ok ps want [firstn cut s; skipn cut s]) (natseq (length s))
+               && live_ok ps want (map (fun b => [b]) s))
+            (combine segs per_seg)
+  | _ => false
+  end.
+
+(* record number j of length n, with non-zero distinct bytes *)
+Definition mkrec (j : nat) (n : nat) : list N :=
+  map (fun k => N.of_nat (1 + j * 60 + k)) (seq 0 n).
+Definition mklog (lens : list nat) : list (list (list N)) :=
+  [map (fun '(j, n) => mkrec j n) (combine (seq 0 (length lens)) lens)].
+
+Definition live_lens : list nat := [0; 1; 2; 8; 9; 10; 19; 30]%nat.
+Definition live_logs : list (list nat) :=
+  [[]] ++ map (fun a => [a]) live_lens
+  ++ flat_map (fun a => map (fun b => [a; b]) live_lens) live_lens
+  ++ flat_map (fun a => flat_map (fun b => map (fun c => [a; b; c]) live_lens) live_lens) live_lens.
+
+Lemma live_bounded : forallb (fun ls => check_log 16 2 (mklog ls)) live_logs = true.
+Proof. vm_compute. reflexivity. Qed.
+
+Definition live_lens2 : list nat := [0; 1; 2; 3; 5; 7]%nat.
+Definition live_logs2 : list (list nat) :=
+  map (fun a => [a]) live_lens2
+  ++ flat_map (fun a => map (fun b => [a; b]) live_lens2) live_lens2
+  ++ flat_map (fun a => flat_map (fun b => map (fun c => [a; b; c]) live_lens2) live_lens2) live_lens2.
+
+Lemma live_bounded2 : forallb (fun ls => check_log 9 3 (mklog ls)) live_logs2 = true.
+Proof. vm_compute. reflexivity. Qed.
